@@ -95,7 +95,16 @@ G7 == << GDoc("G7", "conv-untagged", ("T" :> SOneOf(<< PathS, SInt >>))),
          GDoc("G7", "conv-nested-untagged", ("T" :> SObj(Props1("u", SRef("U")), {})) @@ ("U" :> SOneOf(<< SRef("P"), SBool >>)) @@ ("P" :> PathS)),
          GDoc("G7", "conv-prop-item", ("T" :> SObj(Props2("p", PathS, "v", SArr(PathS)), {"p"}))) >>
 
-GUniverse == G1 \o G2 \o G3 \o G5 \o G6 \o G7
+(* G8: wide documents (many members / many definitions): hash-ordered collections get several elements *)
+Wide == SObj(Props3("alpha", SInt, "beta", SStr, "gamma", SBool) @@ Props3("delta", SNum, "epsilon", SArr(SInt), "zeta", SMap(SStr))
+             @@ Props3("eta", SRef("D1"), "theta", SRef("D2"), "iota", SRef("D3")), {"alpha", "eta"})
+G8 == << GDoc("G8", "wide", ("T" :> Wide) @@ ("D1" :> SObj(Props1("q", SInt), {})) @@ ("D2" :> EnumS(<<JS(<<"r">>), JS(<<"g">>), JS(<<"b">>)>>))
+                             @@ ("D3" :> SOneOf(<<SInt, SStr, SBool>>))),
+         GDoc("G8", "many-variants", ("T" :> EnumS(<<JS(<<"a">>), JS(<<"b">>), JS(<<"c">>), JS(<<"d">>), JS(<<"e">>), JS(<<"f">>), JS(<<"g">>)>>))),
+         GDoc("G8", "anyof-many", ("T" :> SAnyOf(<< SObj(Props1("a", SInt), {}), SObj(Props1("b", SStr), {}), SObj(Props1("c", SBool), {}),
+                                                    SObj(Props1("d", SNum), {}) >>))) >>
+
+GUniverse == G1 \o G2 \o G3 \o G5 \o G6 \o G7 \o G8
 
 (* documents that are inside the supported fragment *)
 SupportedIds == { <<"G2", "scalars">>, <<"G2", "containers">>, <<"G2", "tuple2">>, <<"G2", "nested-struct">>,
